@@ -241,13 +241,21 @@ def ptm5_rule(repo, rep):
 def _separating_tests(scope):
     """{(rectangle, high-edge slot)} for comparisons `high edge of one rectangle <= low edge of the other (same axis)` found in scope,
     rectangles being two 4-tuples unpacked as (low-x, low-y, high-x, high-y)."""
-    unp = [n for n in ast.walk(scope) if isinstance(n, ast.Assign) and isinstance(n.targets[0], ast.Tuple) and len(n.targets[0].elts) == 4
+    unp = [n.targets[0] for n in ast.walk(scope) if isinstance(n, ast.Assign) and isinstance(n.targets[0], ast.Tuple) and len(n.targets[0].elts) == 4
            and all(isinstance(e, ast.Name) for e in n.targets[0].elts)]
+    # rectangles unpacked in the header of an enclosing loop:  for (l1, b1, r1, t1), (l2, b2, r2, t2) in combinations(..)
+    p_ = scope
+    while p_ is not None and not isinstance(p_, (ast.FunctionDef, ast.AsyncFunctionDef)):
+        if isinstance(p_, (ast.For, ast.AsyncFor)):
+            unp = [t for t in ast.walk(p_.target) if isinstance(t, (ast.Tuple, ast.List)) and len(t.elts) == 4 and all(isinstance(e, ast.Name) for e in t.elts)] + unp
+            unp += [n.targets[0] for n in p_.body if isinstance(n, ast.Assign) and isinstance(n.targets[0], ast.Tuple) and len(n.targets[0].elts) == 4
+                    and all(isinstance(e, ast.Name) for e in n.targets[0].elts) and not any(n.targets[0] is u_ for u_ in unp)]
+        p_ = getattr(p_, "_parent", None)
     if len(unp) != 2:
         return None
     pos = {}
     for k, u in enumerate(unp):
-        for i, e in enumerate(u.targets[0].elts):
+        for i, e in enumerate(u.elts):
             pos[e.id] = (k, i)
     good = set()
     for n in ast.walk(scope):
